@@ -41,7 +41,9 @@ def _guard(fn):
         except Exception as e:  # pragma: no cover
             _REC["calls"]["monitor-error:" + fn.__name__] = \
                 _REC["calls"].get("monitor-error:" + fn.__name__, 0) + 1
-            _REC.setdefault("monitor_errors", []).append(repr(e)[:300])
+            import traceback
+            _REC.setdefault("monitor_errors", []).append(
+                repr(e)[:300] + " | " + traceback.format_exc()[-400:])
         finally:
             _ON[0] = True
     return inner
@@ -378,9 +380,10 @@ def mon_sets():
         _count("mkdofpv")
         pv, outdof = out
         pv = np.asarray(pv)
-        if not isinstance(nasset, str):
-            idx = np.array(list(uset.index), dtype=np.int64) if hasattr(uset, "index") \
-                else np.asarray(uset)[:, :2].astype(np.int64)
+        if not hasattr(uset, "columns"):
+            idx = np.asarray(uset)[:, :2].astype(np.int64)      # plain [id, dof] array
+        elif not isinstance(nasset, str):
+            idx = np.array(list(uset.index), dtype=np.int64)
         else:
             sel = orig(uset, "p", nasset)
             idx = np.array(list(uset.index), dtype=np.int64)[sel]
